@@ -60,7 +60,7 @@ CHILD = os.path.join(common.VERIF, 'mc', 'c11child.py')
 def shards(tier):
     if tier == 'quick':
         sh = space.s_shards(9, chunk=64)
-        sh += [('Z', 'contranominal', k) for k in (3, 5, 7)]
+        sh += [('Z', 'contranominal', k) for k in (3, 5, 7, 9, 10)]
         sh += [('Z', 'ordinal', k) for k in (40, 150)]
         sh += [('Z', 'nominal', 40)]
     else:
